@@ -118,6 +118,22 @@ def check_sites(ctx, rule):
                      loc=m.loc(fi, call),
                      witness={"callee": callee, "provenance": sorted(prov),
                               "chain": chain})
+        elif any(p.startswith("other:") and p.endswith("-of-attr")
+                 for p in prov):
+            # the receiver can be an object that was read back from an
+            # attribute of an already existing object: something remembered
+            # from an earlier load, not private to this one
+            chain = P.chain(fi.qualname)
+            run.fail(rule, fi.qualname, construct,
+                     "%s can be applied to a schema object kept in an "
+                     "attribute across loads (receiver provenance: %s): what "
+                     "one load adds is seen by the next; reachable while a "
+                     "configuration is loaded: %s"
+                     % (callee, sorted(prov),
+                        " -> ".join(c.split(".")[-1] for c in chain[-6:])),
+                     loc=m.loc(fi, call),
+                     witness={"callee": callee, "provenance": sorted(prov),
+                              "chain": chain})
         else:
             run.soft_error("%s: cannot classify the receiver of %s in %s "
                            "(provenance %s)" % (rule, construct, fi.qualname,
